@@ -184,6 +184,22 @@ def _nouter(b):
     return nouter
 
 
+def _huse(b):
+    def huse(h, x):
+        CALLS["huse"] += 1
+        return x + 3 + b
+    return huse
+
+
+def _hmain(b):
+    def hmain(x):
+        CALLS["hmain"] += 1
+        from wf.tasks import H
+        # a Handle is passed to the child: its argument hash is that of the FORKED handle
+        return [T("huse")(H("conn"), x + b), b]
+    return hmain
+
+
 def _xleaf(b):
     def xleaf(x):
         CALLS["xleaf"] += 1
@@ -198,7 +214,7 @@ def _xtop(b):
     return xtop
 
 
-BODIES = {"nglue": _nglue, "nouter": _nouter, "fmain_n": _fmain_n, "xleaf": _xleaf, "xtop": _xtop, "smain": _smain, "sh": _sh, "stop": _stop, "fmain_kw": _fmain_kw, "summ_in": _summ_in, "summ": _summ, "fmain": _fmain, "vleaf": _vleaf, "vtop": _vtop, "leaf": _leaf, "mid": _mid, "top": _top, "fanout": _fanout, "idt": _idt, "boom": _boom, "rec": _rec, "guard": _guard,
+BODIES = {"huse": _huse, "hmain": _hmain, "nglue": _nglue, "nouter": _nouter, "fmain_n": _fmain_n, "xleaf": _xleaf, "xtop": _xtop, "smain": _smain, "sh": _sh, "stop": _stop, "fmain_kw": _fmain_kw, "summ_in": _summ_in, "summ": _summ, "fmain": _fmain, "vleaf": _vleaf, "vtop": _vtop, "leaf": _leaf, "mid": _mid, "top": _top, "fanout": _fanout, "idt": _idt, "boom": _boom, "rec": _rec, "guard": _guard,
           "big": _big, "usebig": _usebig}
 
 
